@@ -6,13 +6,16 @@ from props.graphcommon import known_nodes, has_probes, Truth
 
 
 def conf_case(rnd):
-    n = rnd.randint(2, 6)
-    T = rnd.randint(2, 7)
+    # half of the cases are 'rich': 5-6 nodes, many point interactions packed into few instants, the whole history in
+    # the window -- closed walks back to the source, nodes at several hop distances, ties
+    rich = rnd.random() < 0.5
+    n = rnd.randint(5, 6) if rich else rnd.randint(2, 6)
+    T = rnd.randint(3, 5) if rich else rnd.randint(2, 7)
     hist = []
-    for _ in range(rnd.randint(2, 11)):
+    for _ in range(rnd.randint(6, 12) if rich else rnd.randint(2, 11)):
         u, v = rnd.sample(range(1, n + 1), 2)
         t = rnd.randint(0, T)
-        e = None if rnd.random() < 0.6 else t + rnd.randint(1, 3)
+        e = None if rnd.random() < (0.85 if rich else 0.6) else t + rnd.randint(1, 3)
         hist.append(('add', 0, u, v, t, e))
     hist.sort(key=lambda o: o[4])
     nl = rnd.randint(1, 2)
@@ -21,7 +24,7 @@ def conf_case(rnd):
     rnd.shuffle(perm)
     return dict(directed=False, removal=True, hist=hist, family=rnd.choice(['int', 'str', 'us']), functional=False, n=n,
                 tabs=[{str(k): v for k, v in t.items()} for t in tabs], perm=perm,
-                start=rnd.randint(-1, T), delta=rnd.randint(0, 4), ptype=rnd.choice(PTYPES), psize=rnd.randint(1, nl),
+                start=(0 if rich else rnd.randint(-1, T)), delta=(T if rich else rnd.randint(0, 4)), ptype=rnd.choice(PTYPES), psize=rnd.randint(1, nl),
                 alphas=rnd.choice([[1], [2], [1, 3]]), sdelta=rnd.randint(0, 3))
 
 
@@ -42,7 +45,7 @@ class C20(PropBase):
         return []
 
     def n_random(self, tier):
-        return 150 if tier == 'quick' else 8000
+        return 1200 if tier == 'quick' else 12000
 
     def random_cases(self, rnd, n):
         for _ in range(n):
